@@ -346,7 +346,7 @@ pub fn run(a: &Args) -> Report {
         r.notes.insert(format!("{class}/space"), json!(format!("{n}^{depth} = {total} histories, all enumerated across shards")));
     }
     // === random histories, capacities default / 1 / 2 ===
-    let n_random = (if a.quick() { 1_600 } else { 48_000 }) / a.nshards.max(1);
+    let n_random = (if a.quick() { 12_800 } else { 48_000 }) / a.nshards.max(1);
     for i in 0..n_random {
         let cap = *rng.pick(&[None, Some(1), Some(2), Some(2)]);
         let mut env = new_env(mix(a.seed, 0x99 + i), cap);
